@@ -1120,3 +1120,143 @@ Proof.
   pose proof (run_more _ _ _ f2 _ _ _ _ H1) as H1'. pose proof (run_more _ _ _ f1 _ _ _ _ H2) as H2'.
   rewrite Nat.add_comm in H2'. rewrite H1' in H2'. inversion H2'. reflexivity.
 Qed.
+
+(* ============ filling rotation immediates commutes with transpiling (C06's clause) *)
+(* `Subroutine.instantiate` replaces Template operands; the SDK puts templates only in
+   the numerator / denominator of rot_x/y/z.  A template is represented here by the
+   integer standing for it; instantiation is then a map f (numerators) / g
+   (denominators) on the immediates of the rotation instructions that fixes every
+   concrete immediate of the decomposition table. *)
+Definition map_rot (f g : Z -> Z) (i : instr) : instr :=
+  match i with IRot ax r n d => IRot ax r (f n) (g d) | _ => i end.
+
+Definition fixes_table (f g : Z -> Z) (t : tables) : Prop :=
+  (forall gt ax n d, In (ax, n, d) (t_g1 t gt) -> f n = n /\ g d = d) /\
+  (forall gt p b ax r n d, t_g2 t gt p = Some b -> In (BRot ax r n d) (b_items b) -> f n = n /\ g d = d).
+
+Definition map_res (f g : Z -> Z) (r : result prog) : result prog :=
+  match r with Ok b => Ok (map (map_rot f g) b) | Err e => Err e end.
+
+Lemma track_map_rot : forall f g i s, track (map_rot f g i) s = track i s.
+Proof. intros f g i s. destruct i; reflexivity. Qed.
+
+Lemma real_map_rot : forall f g i, real (map_rot f g i) = real i.
+Proof. intros f g i. destruct i; reflexivity. Qed.
+
+Lemma target_map_rot : forall f g i, target (map_rot f g i) = target i.
+Proof. intros f g i. destruct i; reflexivity. Qed.
+
+Lemma rlen_map_rot : forall f g b, rlen (map (map_rot f g) b) = rlen b.
+Proof.
+  intros f g b. unfold rlen, erase. induction b as [|i b IH]; simpl; [reflexivity|].
+  rewrite real_map_rot. destruct (real i); simpl; rewrite IH; reflexivity.
+Qed.
+
+Lemma inst_items_fixed : forall f g debug sc r0 r1 items,
+  (forall ax r n d, In (BRot ax r n d) items -> f n = n /\ g d = d) ->
+  map (inst_item sc r0 r1) (filter (keep_item debug) items) =
+  map (map_rot f g) (map (inst_item sc r0 r1) (filter (keep_item debug) items)).
+Proof.
+  intros f g debug sc r0 r1. induction items as [|it items IH]; intro H; simpl; [reflexivity|].
+  assert (H' : forall ax r n d, In (BRot ax r n d) items -> f n = n /\ g d = d)
+    by (intros ax r n d Hin; apply (H ax r n d); right; exact Hin).
+  destruct (keep_item debug it); [|apply IH; exact H'].
+  simpl. f_equal; [|apply IH; exact H'].
+  destruct it as [ax r n d| |]; try reflexivity. simpl.
+  destruct (H ax r n d (or_introl eq_refl)) as [-> ->]. reflexivity.
+Qed.
+
+Lemma expand_map_rot : forall f g c s i,
+  c_hw c = false -> fixes_table f g (c_tab c) ->
+  expand c s (map_rot f g i) = map_res f g (expand c s i).
+Proof.
+  intros f g c s i Hhw [H1 H2]. destruct i; try reflexivity.
+  - (* IGate1 *) simpl. f_equal.
+    assert (Hl : forall l, (forall ax n d, In (ax, n, d) l -> f n = n /\ g d = d) ->
+                 map (fun '(ax, n, d) => IRot ax r n d) l =
+                 map (map_rot f g) (map (fun '(ax, n, d) => IRot ax r n d) l)).
+    { induction l as [|[[ax n] d] l IH]; intro H; simpl; [reflexivity|].
+      destruct (H ax n d (or_introl eq_refl)) as [-> ->]. f_equal. apply IH.
+      intros ax' n' d' Hin. apply (H ax' n' d'). right. exact Hin. }
+    apply Hl. intros ax n d Hin. exact (H1 g0 ax n d Hin).
+  - (* IRot *) simpl. unfold rot_angle. rewrite Hhw. reflexivity.
+  - (* IGate2 *) simpl. destruct (choose_placement g0 s r0 r1) as [pl|]; [|reflexivity].
+    destruct (t_g2 (c_tab c) g0 pl) as [b|] eqn:Eb; [|reflexivity].
+    assert (Hb : forall sc, inst_block (c_debug c) b sc r0 r1 = map (map_rot f g) (inst_block (c_debug c) b sc r0 r1)).
+    { intro sc. unfold inst_block. rewrite map_app. f_equal; [destruct (b_scratch b); reflexivity|].
+      apply inst_items_fixed. intros ax r n d Hin. exact (H2 g0 pl b ax r n d Eb Hin). }
+    destruct (uses_scratch b); [|unfold map_res; rewrite <- Hb; reflexivity].
+    destruct (unused_register s) as [sc|]; [unfold map_res; rewrite <- Hb; reflexivity | reflexivity].
+Qed.
+
+Lemma expand_all_map_rot : forall f g c p s,
+  c_hw c = false -> fixes_table f g (c_tab c) ->
+  expand_all c s (map (map_rot f g) p) =
+  match expand_all c s p with Ok bs => Ok (map (map (map_rot f g)) bs) | Err e => Err e end.
+Proof.
+  intros f g c p. induction p as [|i p IH]; intros s Hhw Hf; simpl; [reflexivity|].
+  rewrite track_map_rot, (expand_map_rot f g c _ i Hhw Hf).
+  destruct (expand c (track i s) i) as [b|]; simpl; [|reflexivity].
+  rewrite (IH _ Hhw Hf). destruct (expand_all c (track i s) p); reflexivity.
+Qed.
+
+Lemma starts_map_rot : forall f g bs n, starts n (map (map (map_rot f g)) bs) = starts n bs.
+Proof.
+  induction bs as [|b bs IH]; intro n; simpl; [reflexivity|]. rewrite rlen_map_rot, IH. reflexivity.
+Qed.
+
+Lemma retarget_map_rot : forall f g m i,
+  retarget m (map_rot f g i) = match retarget m i with Ok i' => Ok (map_rot f g i') | Err e => Err e end.
+Proof.
+  intros f g m i. destruct i; try reflexivity; simpl; destruct (nth_error m t); reflexivity.
+Qed.
+
+Lemma retarget_all_map_rot : forall f g m l,
+  retarget_all m (map (map_rot f g) l) = map_res f g (retarget_all m l).
+Proof.
+  induction l as [|i l IH]; simpl; [reflexivity|].
+  rewrite retarget_map_rot. destruct (retarget m i); simpl; [|reflexivity].
+  rewrite IH. destruct (retarget_all m l); reflexivity.
+Qed.
+
+Lemma targets_end_map_rot : forall f g p, targets_end (map (map_rot f g) p) = targets_end p.
+Proof.
+  intros f g p. unfold targets_end. rewrite map_length.
+  generalize (List.length p). intro n. induction p as [|i p IH]; simpl; [reflexivity|].
+  rewrite target_map_rot, IH. reflexivity.
+Qed.
+
+Theorem transpile_instantiate_commute : forall f g c p,
+  c_hw c = false -> fixes_table f g (c_tab c) ->
+  transpile c (map (map_rot f g) p) = map_res f g (transpile c p).
+Proof.
+  intros f g c p Hhw Hf. unfold transpile. rewrite (expand_all_map_rot f g c p tst0 Hhw Hf).
+  destruct (expand_all c tst0 p) as [bs|]; [|reflexivity].
+  rewrite starts_map_rot, <- concat_map, retarget_all_map_rot.
+  destruct (retarget_all (starts 0 bs) (List.concat bs)) as [l|]; simpl; [|reflexivity].
+  rewrite targets_end_map_rot, map_app. destruct (targets_end p); reflexivity.
+Qed.
+
+(* decidable sufficient condition: all immediates of the table are non-negative, the
+   substitution only touches negative codes (templates) *)
+Definition item_nonneg (it : bitem) : bool :=
+  match it with BRot _ _ n d => (0 <=? n)%Z && (0 <=? d)%Z | _ => true end.
+Definition nonneg_table (t : tables) : bool :=
+  forallb (fun gt => forallb (fun '(ax, n, d) => (0 <=? n)%Z && (0 <=? d)%Z) (t_g1 t gt)) [GX; GY; GZ; GH; GK; GS; GT]
+  && forallb (fun gt => forallb (fun p => match t_g2 t gt p with
+                                          | Some b => forallb item_nonneg (b_items b) | None => true end)
+                                [EC; CE; CC]) [Cnot; Cphase; Mov].
+
+Lemma nonneg_table_fixes : forall f g t,
+  nonneg_table t = true -> (forall n, (0 <= n)%Z -> f n = n) -> (forall d, (0 <= d)%Z -> g d = d) ->
+  fixes_table f g t.
+Proof.
+  intros f g t H Hf Hg. unfold nonneg_table in H. apply andb_true_iff in H. destruct H as [H1 H2]. split.
+  - intros gt ax n d Hin. rewrite forallb_forall in H1. specialize (H1 gt ltac:(destruct gt; simpl; tauto)).
+    rewrite forallb_forall in H1. specialize (H1 _ Hin). simpl in H1.
+    apply andb_true_iff in H1. destruct H1 as [A B]. apply Z.leb_le in A. apply Z.leb_le in B. auto.
+  - intros gt p b ax r n d Hb Hin. rewrite forallb_forall in H2. specialize (H2 gt ltac:(destruct gt; simpl; tauto)).
+    rewrite forallb_forall in H2. specialize (H2 p ltac:(destruct p; simpl; tauto)). rewrite Hb in H2.
+    rewrite forallb_forall in H2. specialize (H2 _ Hin). simpl in H2.
+    apply andb_true_iff in H2. destruct H2 as [A B]. apply Z.leb_le in A. apply Z.leb_le in B. auto.
+Qed.
